@@ -49,7 +49,7 @@ def replay(cand):
         xarg = v % (1 << 64)
     obs = kernel_check.native_run(cfg, n, data, x=xarg, fn_kind=fn_kind, writable=True)
     if "crash" in obs:
-        return True, "native run crashed: %s" % obs["crash"][-300:], obs
+        return True, "native run crashed: %s" % obs["crash"][:500], obs
     v = _interp(cfg, x, cand.get("x_bits", 64), fn)
     lo, hi = kernels.write_range(cfg)
     inrange = lo <= v <= hi
